@@ -757,6 +757,10 @@ def detours(alpha, uni, weighted, rng, n):
         rem = ["remove_edge"] + x[1:-2] if rng.random() < 0.7 else rng.choice(rnodes)
         first, second = (x, y) if rng.random() < 0.5 else (y, x)
         ops = [first, second, rem, z]
+        if rng.random() < 0.3:
+            # a record inserted twice and removed once must be gone (counters incremented per call, decremented per
+            # record, go stale here)
+            ops = [y, x, x, ["remove_edge"] + x[1:-2], z]
         if weighted and sw and rng.random() < 0.5:
             ops.append(rng.choice(sw))
         out.append({"family": "hist", "layer": "detour", "universe": uni, "weighted": weighted, "ops": ops})
